@@ -24,11 +24,13 @@ UNITS = {
     'K7': dict(crate='searchlite-core', prefixes=['k7_'], title='flat score combinators: combine_rescore_scores, apply_boost_mode, combine_function_scores (max/min)',
                files=['searchlite-core/src/api/reader.rs', 'searchlite-core/src/query/score_functions.rs'],
                bounded={'k7_combine_function_scores_minmax_len_le_3': 'at most 3 function values, max/min modes only'},
+               # k7_decay_norm_*: loop-free, all finite f64 inputs
                assumes=['inputs are finite floats (CBMC reports inf + -inf / 0 * inf as NaN-producing otherwise); +0.0 and -0.0 are not distinguished']),
     'K9': dict(crate='searchlite-core', prefixes=['k9_'], title='value selection for multi-valued sort fields: ValueSelector::from, pick_numeric',
                files=['searchlite-core/src/query/sort.rs'],
-               bounded={'k9_pick_numeric_i64_len0': 'list length 0', 'k9_pick_numeric_i64_len1': 'list length 1', 'k9_pick_numeric_i64_len3': 'list length 3 (i64 values)'},
-               assumes=[]),
+               bounded={'k9_pick_numeric_i64_len0': 'list length 0', 'k9_pick_numeric_i64_len1': 'list length 1', 'k9_pick_numeric_i64_len3': 'list length 3 (i64 values)',
+                        'k9_keyword_pick_len_le_2': 'at most 2 values of at most 2 ASCII bytes each'},
+               assumes=['the keyword arm of ResolvedSortField::value is cut out mechanically (kani/sort_slices.tpl); that str_values returns the field\'s values is not verified']),
     'K10': dict(crate='searchlite-core', prefixes=['k10_'], title='exact-mode percentile (query/aggs/mod.rs QuantileState::percentile): no out-of-bounds index for any requested percent',
                files=['searchlite-core/src/query/aggs/mod.rs'],
                bounded={'k10_percentile_exact_len0': 'no values', 'k10_percentile_exact_len1': 'one value', 'k10_percentile_exact_len2': 'two finite values (any percent bit pattern)'},
@@ -55,6 +57,8 @@ UNITS = {
 
 def prepare_gen():
     os.makedirs(GEN, exist_ok=True)
+    if not all(os.path.exists(os.path.join(GEN, v[0])) for v in CORE_SLICES.values()):
+        gen_core_slices()
     for name in ('sort', 'wand', 'aggs', 'reader', 'score_functions', 'ffi'):
         p = os.path.join(GEN, 'playback_%s.rs' % name)
         if not os.path.exists(p):
@@ -105,7 +109,37 @@ def gen_ffi_slice():
     return True, None, gen.rewrite_log, gen.functions
 
 
-def run_cargo_kani(crate, prefixes, tier, extra=None, timeout=2400):
+CORE_SLICES = {
+    # template -> (generated file, placeholder that keeps the crate compiling when an anchor is lost, units that need it)
+    'sort_slices.tpl': ('sort_slices.rs', "pub fn keyword_pick<'a>(_values: &[&'a str], _selector: ValueSelector) -> Option<&'a str> { unreachable!() }\n", ['K9']),
+    'score_slices.tpl': ('score_slices.rs', "pub fn decay_norm(_value: f64, _origin: &f64, _offset: &f64, _scale: &f64) -> f64 { unreachable!() }\n", ['K7']),
+}
+
+
+def gen_core_slices():
+    """re-extract the statement slices the searchlite-core harnesses call (kani/*_slices.tpl); on a lost anchor a
+    placeholder keeps the crate compiling and the units that need the slice are undecided.
+    returns {unit: (ok, cause)}, rewrite_log"""
+    state = {}
+    rlog = []
+    for tpl, (outname, placeholder, needs) in sorted(CORE_SLICES.items()):
+        out = os.path.join(GEN, outname)
+        try:
+            unit, gen, tf = extract.expand(os.path.join(VERIF, 'kani', tpl))
+            with open(out, 'w') as f:
+                f.write(gen.text())
+            rlog.extend(gen.rewrite_log)
+        except ExtractError as e:
+            with open(out, 'w') as f:
+                f.write('// extraction failed: %s\n%s' % (str(e).replace('\n', ' '), placeholder))
+            for k in needs:
+                state[k] = 'extractor: %s' % e
+    return state, rlog
+
+
+def run_cargo_kani(crate, prefixes, tier, extra=None, timeout=None):
+    # a harness that does not finish is undecided, never an alarm; the quick tier gives up earlier
+    timeout = timeout or (1200 if tier != 'thorough' else 3600)
     target = os.path.join(CACHE, 'kani-target-' + crate)
     cmd = ['cargo', 'kani', '--target-dir', target, '-Z', 'function-contracts', '-j', '8', '--output-format', 'terse']
     for p in prefixes:
@@ -250,6 +284,10 @@ def run_kani_units(kids, tier, filters=None):
         if crate == 'searchlite-ffi':
             ok, cause, rlog, funcs = gen_ffi_slice()
             pre = dict(ok=ok, cause=cause, rewrite_log=rlog, functions=funcs)
+        core_pre = None
+        if crate == 'searchlite-core':
+            lost, rlog = gen_core_slices()
+            core_pre = dict(lost=lost, rewrite_log=rlog)
         prefixes = [p for k in ks for p in (filters.get(k) or UNITS[k]['prefixes'])]
         if pre and not pre['ok']:
             run = dict(cmd='', out='', rc=2, wall_s=0)
@@ -269,6 +307,13 @@ def run_kani_units(kids, tier, filters=None):
                 res['cause'] = pre['cause']
                 results[k] = res
                 continue
+            if core_pre and k in ('K9', 'K7'):
+                res['rewrite_log'] = core_pre['rewrite_log']
+                if k in core_pre['lost']:
+                    res['state'] = 'undecided'
+                    res['cause'] = core_pre['lost'][k]
+                    results[k] = res
+                    continue
             exp = expected_harnesses(filters.get(k) or u['prefixes'])
             if not exp:
                 res['state'] = 'undecided'
